@@ -89,3 +89,35 @@ Theorem C01_cursor_functions_are_source : forall (E : env) (s : st) (buf : bytes
 Proof. exact (@CursorSrc.cursor_model_is_translated_source). Qed.
 Print Assumptions C01_cursor_functions_are_source.
 
+From Coq Require Import String List ZArith Lia.
+From SJ Require Import Base.Bytes Base.Utf8 Gen.Tables Model.Read Model.Str Model.Num Model.NumF32 Model.Ignore Model.Ty
+  Gen.CursorTables Gen.ScanTables Model.DeTyped Model.DeAst Gen.DeTables Proofs.DeSrc Model.Value Model.De.
+From SJ Require Import Proofs.DeSrc2.
+Theorem C01_typed_entry_points_are_source : forall (E : env) (f : nat) (tok : bool) (s : st) (fuel : nat), (40 <= fuel)%nat ->
+  (* Model/De.v *)
+  DeTyped.lift (parse_value (S f) E s) = as_tres (run E (value_vis E f) tok fuel "deserialize_any" s) /\
+  de_end E s = as_unit (run E (value_vis E f) tok fuel "end" s) /\
+  (* Model/DeTyped.v, one branch of de_typed per [ty] constructor *)
+  de_typed (S f) E TBool s = as_tres (run E vis_bool tok fuel "deserialize_bool" s) /\
+  (forall t, de_typed (S f) E (TInt t) s = as_tres (run E (vis_int t) tok fuel (int_method t) s)) /\
+  de_typed (S f) E TF32 s = as_tres (run E (vis_num visit_f32) tok fuel "deserialize_f32" s) /\
+  de_typed (S f) E TF64 s = as_tres (run E (vis_num visit_f64) tok fuel "deserialize_f64" s) /\
+  de_typed (S f) E TChar s = as_tres (run E (vis_str visit_char) tok fuel "deserialize_char" s) /\
+  de_typed (S f) E TStr s = as_tres (run E (vis_str visit_string) tok fuel "deserialize_string" s) /\
+  de_typed (S f) E TBorrowedStr s = as_tres (run E (vis_str visit_borrowed_only) tok fuel "deserialize_str" s) /\
+  de_typed (S f) E TBytes s = as_tres (run E (vis_bytes E f) tok fuel "deserialize_byte_buf" s) /\
+  de_typed (S f) E TUnit s = as_tres (run E vis_unit tok fuel "deserialize_unit" s) /\
+  de_typed (S f) E TUnitStruct s = as_tres (run E vis_unit tok fuel "deserialize_unit_struct" s) /\
+  (forall t1, de_typed (S f) E (TOption t1) s = as_tres (run E (vis_option E f t1) tok fuel "deserialize_option" s)) /\
+  (forall t1, de_typed (S f) E (TNewtype t1) s = as_tres (run E (vis_newtype E f t1) false fuel "deserialize_newtype_struct" s)) /\
+  de_typed (S f) E TRaw s = as_tres (run E vis_raw true fuel "deserialize_newtype_struct" s) /\
+  (forall t1, de_typed (S f) E (TSeq t1) s = as_tres (run E (vis_seq E f t1) tok fuel "deserialize_seq" s)) /\
+  (forall ts, de_typed (S f) E (TTuple ts) s = as_tres (run E (vis_tuple E f ts) tok fuel "deserialize_tuple" s)) /\
+  (forall ts, de_typed (S f) E (TTupleStruct ts) s = as_tres (run E (vis_tuple E f ts) tok fuel "deserialize_tuple_struct" s)) /\
+  (forall k v, de_typed (S f) E (TMap k v) s = as_tres (run E (vis_map E f k v) tok fuel "deserialize_map" s)) /\
+  (forall fields, de_typed (S (S f)) E (TStruct fields) s = as_tres (run E (vis_struct E f fields) tok fuel "deserialize_struct" s)) /\
+  (forall vs, de_typed (S f) E (TEnum vs) s = as_tres (run E (vis_enum E f vs) tok fuel "deserialize_enum" s)) /\
+  de_typed (S f) E TIgnored s = as_tres (run E vis_ignored tok fuel "deserialize_ignored_any" s).
+Proof. exact (@DeSrc2.typed_entry_points_are_translated_source). Qed.
+Print Assumptions C01_typed_entry_points_are_source.
+
